@@ -1,6 +1,6 @@
 (* C08 - a long-open handle sees everything acknowledged through other handles.  Statements only. *)
 From Coq Require Import List ZArith NArith.
-From DOS Require Import Base Store StoreProofs StoreLemmas Mono MonoStep.
+From DOS Require Import Base Merge Store StoreProofs StoreLemmas Mono MonoStep Lookup LookupProofs LookupWorld.
 Import ListNotations.
 
 Section C08.
@@ -27,6 +27,26 @@ Proof. exact (listing_complete inflate). Qed.
 Theorem C08_listing_once : forall wL wS,
   NoDup (map rkey (db wS)) -> NoDup (map fst (loose wL)) -> NoDup (listing wL wS).
 Proof. exact listing_nodup. Qed.
+
+(* the BULK entry points (has_objects, get_objects_meta, get_objects_content, get_objects_stream_and_meta all run the generator
+   modelled by Lookup.lookup_bulk): whatever snapshot w1 the handle is pinned to, whatever thresholds (hence query strategy) and
+   whatever duplicate-free enumeration of the request, an object stored at w0 - before the call looked at the loose folder (w2),
+   the index being refreshed later still (w3) - is reported, exactly once, never as MISSING, with the length of its content *)
+Theorem C08_bulk_lookup_reports_every_acknowledged_object : forall cfg skip w0 w1 w2 w3 ks k c,
+  (0 < in_max cfg)%nat -> NoDup ks ->
+  Inv H inflate w0 -> Inv H inflate w1 -> Inv H inflate w2 -> Inv H inflate w3 -> Mono w0 w2 -> Mono w2 w3 ->
+  stored inflate w0 k = Some c -> In k ks ->
+  let out := fst (lookup_bulk cfg skip (db w1) (ls_of w2) (db w3) ks) in
+  (exists f, In f out /\ fkey f = k /\ fsize f = Some (length c)) /\
+  (forall f f', In f out -> In f' out -> fkey f = fkey f' -> f = f').
+Proof. exact (bulk_reports_every_stored_object H inflate H_inj). Qed.
+
+(* and it invents nothing: what it reports as present is in the snapshot, the loose folder or the refreshed index *)
+Theorem C08_bulk_lookup_reports_only_what_is_there : forall cfg skip w1 w2 w3 ks f,
+  (0 < in_max cfg)%nat -> NoDup ks -> Inv H inflate w1 -> Inv H inflate w3 ->
+  In f (fst (lookup_bulk cfg skip (db w1) (ls_of w2) (db w3) ks)) -> is_missing f = false ->
+  In (fkey f) ks /\ (In (fkey f) (map rkey (db w1)) \/ get_loose w2 (fkey f) <> None \/ In (fkey f) (map rkey (db w3))).
+Proof. exact (bulk_reports_only_what_is_there H inflate). Qed.
 End C08.
 
 (* the pre-repair listing used a snapshot pinned BEFORE the loose listing: refuted by a two-world witness
@@ -39,3 +59,12 @@ Print Assumptions C08_lookup_with_any_pinned_snapshot.
 Print Assumptions C08_listing_complete.
 Print Assumptions C08_listing_once.
 Print Assumptions C08_stale_listing_refuted.
+Print Assumptions C08_bulk_lookup_reports_every_acknowledged_object.
+Print Assumptions C08_bulk_lookup_reports_only_what_is_there.
+
+(* non-vacuity: the handle is pinned to the EMPTY index (w_empty), the object was loose at w_snap, then packed and cleaned (w_later):
+   the bulk call through the stale handle reports it as packed with its size *)
+Definition w_empty : world := {| loose := []; packs := []; sandbox := []; db := [] |}.
+Example C08_bulk_ex : fst (lookup_bulk (mkLcfg 2 0) false (db w_empty) (ls_of w_later) (db w_later) [1%N; 3%N]) =
+  [FPacked (mkRow 1%N 0%Z 0 1 false 1); FMissing 3%N].
+Proof. vm_compute. reflexivity. Qed.
